@@ -169,8 +169,8 @@ STMTS = {
 EFFECTFUL = set("icusmb")
 LIST_BOUNDS = {
     # tier -> [(alphabet, max length)]  (every sequence of length 0..max over the alphabet)
-    "quick": [("qnicusvmfxbrk", 2), ("iuvfx", 3)],
-    "thorough": [("qnicusvmfxbrk", 3), ("inusvfx", 4)],
+    "quick": [("qnicusvmfxbrk", 2), ("ivx", 3)],
+    "thorough": [("qnicusvmfxbrk", 3), ("iusvfx", 4)],
 }
 
 # one statement (or a short list) per statement kind: the round trip is per kind
@@ -234,7 +234,6 @@ KINDS = {
     "timestamp": ["select '2020-01-02 03:04:05'::timestamp_ntz, to_date('2020-01-02')"],
     "create_types": ["create table ty (a number(10,2), b timestamp_ntz, c variant, d boolean, e float, f date)", "describe table ty"],
 }
-KINDS_QUICK_STYLES = ["semi_sp", "bc_tricky"]
 
 # =====================================================================================================================
 # separator / comment styles: id -> composer(list of statements) -> text
@@ -268,7 +267,7 @@ STYLES = {
     "lead_semis": lambda ss: ";; -- x\n; " + "; ".join(ss),
 }
 STYLES_QUICK = ["semi_sp", "semi_tight", "lc_tricky", "bc_tricky", "inline_lc", "lead_semis"]
-LIST_STYLES = {"quick": ["semi_tight", "bc_tricky"], "thorough": ["semi_sp", "semi_tight", "bc_tricky", "inline_lc"]}
+LIST_STYLES = {"quick": ["semi_tight", "bc_tricky"], "thorough": ["semi_tight", "bc_tricky", "inline_lc"]}
 
 EMPTY_TEXTS = [
     "",
@@ -296,7 +295,7 @@ PATSETS = {
     "empty": [],
     "call": [r"^CALL\b"],
     "grant_revoke": [r"grant ", r"^\s*revoke"],
-    "effect": [r"^truncate\b", r"^insert into t\b"],
+    "effect": [r"^truncate\b", r"^delete\s", r"^update t\b"],  # (no fixture statement matches any pattern set)
     "subst": [r"^call x\(1\)"],
 }
 # id -> (sql, params or None)
@@ -318,16 +317,21 @@ NOP_STMTS = {
     "insert_s": ("insert into s values (5, 'e')", None),
     "truncate": ("truncate table t", None),
     "delete": ("delete from t where k = 1", None),
+    "delete_uc": ("DELETE FROM t", None),
+    "update_t": ("update t set v = 'grant ' where k = 1", None),
+    "update_s": ("update s set v = 'e' where k = 1", None),
     "select_t": ("select k from t order by k", None),
     "p_call_1": ("call x(%s)", (1,)),
     "p_call_2": ("call x(%s)", (2,)),
     "p_insert_t": ("insert into t values (%s, %s)", (6, "grant ")),
     "p_insert_s": ("insert into s values (%s, %s)", (6, "e")),
     "p_select": ("select %s", ("grant ",)),
+    "p_update_t": ("update t set v = %s where k = %s", ("z", 1)),
+    "p_update_s": ("update s set v = %s where k = %s", ("z", 1)),
 }
 NOP_QUICK_STMTS = [
     "call_lc", "call_lead_blank", "grant_uc", "revoke_lead_blank", "select_grant_later", "insert_grant_later",
-    "insert_t_uc", "insert_s", "truncate", "delete", "p_call_1", "p_call_2", "p_insert_t", "p_select",
+    "insert_t_uc", "truncate", "delete_uc", "update_t", "update_s", "p_call_1", "p_call_2", "p_insert_t", "p_select", "p_update_t",
 ]  # fmt: skip
 STATUS_ROW = ("Statement executed successfully.",)
 
@@ -573,9 +577,13 @@ def variants(part, tier):
         return [(s, c, r) for s in st for c in ("tuple", "dict") for r in (True, False)]
     if part == "LIST":
         st = LIST_STYLES[tier]
+        if tier == "quick":
+            return [(st[0], "tuple", True), (st[1], "dict", True), (st[1], "tuple", False)]
         return [(s, "tuple", True) for s in st] + [(st[0], "dict", True), (st[1], "tuple", False)]
     if part == "KIND":
-        st = KINDS_QUICK_STYLES if tier == "quick" else ["semi_sp", "semi_tight", "bc_tricky", "inline_bc", "inline_lc"]
+        if tier == "quick":
+            return [("bc_tricky", "tuple", True), ("semi_sp", "dict", True)]
+        st = ["semi_sp", "semi_tight", "bc_tricky", "inline_bc", "inline_lc"]
         return [(s, "tuple", True) for s in st] + [(st[0], "dict", True)]
     raise AssertionError(part)
 
@@ -604,8 +612,7 @@ def work(item, acc: core.Acc, tier):
         pieces = check_split(stmts, text)
         if probe is not None and probe[0] == "row":
             # the reference reader applied to the composed text sees the same constant value
-            idx = probe[1]
-            assert pieces[idx]["literals"] and pieces[idx]["literals"][-1][1] == ref_value, (text, pieces[idx])
+            assert pieces[0]["literals"] and pieces[0]["literals"][-1][1] == ref_value, (text, pieces[0])
         if cls not in ones:
             ones[cls] = run_side("one", stmts, None, cls=cls, views=views)
             acc.count("evaluations")
@@ -647,7 +654,9 @@ def classify(item, style, cls, rc, stmts, one, clause, reason):
         if fkind == "none":
             return f"list:no-failure,stmts={''.join(sorted(set(seq)))}"
         before = "effect-before" if any(k in EFFECTFUL for k in seq[:idx]) else "no-effect-before"
-        return f"list:first-failure={fkind},{before}"
+        # a statement that cannot be parsed: is it the first failing statement, does it come later, or is there none
+        unparsable = "none" if "x" not in seq else "first-failure" if seq.index("x") == idx else "after-first-failure"
+        return f"list:unparsable={unparsable},{before}"
     if part == "KIND":
         return f"kind={item[1]}"
     raise AssertionError(item)
@@ -735,6 +744,8 @@ def work_nop(item, acc, tier):
         paths.append("execute_string")
     for path in paths:
         for cls in ("tuple", "dict"):
+            if tier == "quick" and cls == "dict" and path == "execute_string":
+                continue
             if path == "execute":
                 with_opt = run_side("one", [sql], None, cls=cls, nop=pats, params=params)
                 without = run_side("one", [sql], None, cls=cls, params=params)
